@@ -254,13 +254,26 @@ def build_modelrun(pid, prop):
     return exe, o
 
 
+def modfile_args():
+    """go.mod of /verif/go points at /repo; for another tree (VERIF_REPO) use an alternate modfile."""
+    if os.path.realpath(REPO) == "/repo":
+        shutil.copy(os.path.join(REPO, "go.sum"), os.path.join(GO, "go.sum"))
+        return []
+    d = os.path.join(BUILD, "gomod-" + hashlib.sha256(REPO.encode()).hexdigest()[:10])
+    os.makedirs(d, exist_ok=True)
+    txt = open(os.path.join(GO, "go.mod")).read().replace("=> /repo", "=> " + os.path.realpath(REPO))
+    with open(os.path.join(d, "go.mod"), "w") as f:
+        f.write(txt)
+    shutil.copy(os.path.join(REPO, "go.sum"), os.path.join(d, "go.sum"))
+    return ["-modfile=" + os.path.join(d, "go.mod")]
+
+
 def build_harness(pid, prop):
     name = prop.get("harness", pid.lower())
     out = os.path.join(BIN, "h" + pid)
     os.makedirs(BIN, exist_ok=True)
     with Lock("go-" + pid):
-        shutil.copy(os.path.join(REPO, "go.sum"), os.path.join(GO, "go.sum"))
-        rc, o = run(["go", "build", "-tags", "verif", "-o", out, "./cmd/" + name], cwd=GO, env=GOENV, timeout=1500)
+        rc, o = run(["go", "build"] + modfile_args() + ["-tags", "verif", "-o", out, "./cmd/" + name], cwd=GO, env=GOENV, timeout=1500)
     if rc != 0:
         return None, o
     return out, o
